@@ -545,6 +545,14 @@ def mon_c08(t):
                         if not any(overlap(key, c) for c in nodeobj["cidrs"]):
                             bad.append({"step": k, "clause": "re-sync reserved a block beyond the node's own CIDRs",
                                         "detail": "%s reserved %s" % (node, key), "cls": "resync-reserves-more"})
+        # ... and nothing that was reserved is given back by processing a node that has pod CIDRs and is not being deleted
+        after = {(en["sel"], en["idx"], fam): set(en[fam]["keys"]) for en in (t.snap[k] or []) for fam in ("v4", "v6") if en[fam]}
+        if t.snap[k] is not None and t.res[k] != "3":
+            for slot, keys in before.items():
+                lost = keys - after.get(slot, keys)
+                for key in sorted(lost, key=str):
+                    bad.append({"step": k, "clause": "re-sync of a node that has pod CIDRs released a reserved block",
+                                "detail": "%s: %s lost from %s" % (node, key, slot[:2]), "cls": "resync-releases"})
     return bad
 
 
@@ -749,6 +757,29 @@ def classify_c06(t, k, en, n):
     return "dependant-associated"
 
 
+def e3_ccs(t):
+    """ClusterCIDR keys for which the history contains a schedule no work queue produces (E3): a fetched item in flight while
+    the same key is processed from the queue or by another worker.  What such schedules produce is not held against the controller."""
+    inflight, e3 = {}, set()
+    for k, op in enumerate(t.ops):
+        f = op.split()
+        if f[0] == "fc":
+            if f[2] in inflight.values():
+                e3.add(f[2])
+            inflight[f[1]] = f[2]
+        elif f[0] == "runc":
+            key = inflight.pop(f[1], None)
+            if key is not None and key in inflight.values():
+                e3.add(key)
+        elif f[0] == "pc" and k > 0:
+            ready = t.q[k - 1].split("/")[2]
+            if ready != "-" and ready.split(",")[0] in inflight.values():
+                e3.add(ready.split(",")[0])
+        elif f[0] in ("crash", "construct"):
+            inflight = {}
+    return e3
+
+
 def mon_c11(t, drain_from):
     """after the drain: steady state; failed items are requeued"""
     bad = []
@@ -766,6 +797,22 @@ def mon_c11(t, drain_from):
             if room:
                 bad.append({"step": k, "clause": "steady state: a servable node has no pod CIDRs",
                             "detail": "%s could be served by %s" % (n["name"], room), "cls": "node-not-served"})
+    # steady state: every existing, non-deleting ClusterCIDR to which the controller itself added its finalizer (it accepted
+    # the spec) is mapped; otherwise nodes only it can serve wait for ever
+    finalized = set()
+    for i, op in enumerate(t.ops):
+        f = op.split()
+        if f[0] == "cc+" and i > 0 and f[1] not in {c["name"] for c in t.api[i - 1][1]}:
+            finalized.discard(f[1])
+        for e in t.fx[i]:
+            if e["kind"] == "updcc" and "OURS" in e["fins"] and e["out"] in ("ok", "aerr"):
+                finalized.add(e["name"])
+    have = {en["name"] for en in t.snap[k]}
+    e3 = e3_ccs(t)
+    for c in ccs:
+        if c["name"] in finalized and c["name"] not in e3 and not c["deleting"] and "OURS" in c["fins"] and c["name"] not in have:
+            bad.append({"step": k, "clause": "steady state: an existing ClusterCIDR carrying the controller's finalizer is not mapped",
+                        "detail": c["name"], "cls": "clustercidr-not-mapped"})
     for c in ccs:
         if c["deleting"] and "OURS" in c["fins"]:
             ents = [en for en in (t.snap[k] or []) if en["name"] == c["name"]]
